@@ -327,6 +327,40 @@ func C18(rep *ev.Reporter, tier string) {
 	cases = append(cases, c18Case{id: fmt.Sprintf("c18/then-forms/%d", len(cases)), when: "K.K == 0", then: []interface{}{jm("set", "K.I", 5.0), "K.K = 1"}, class: "then-forms"})
 	cases = append(cases, c18Case{id: fmt.Sprintf("c18/then-forms/%d", len(cases)), when: "K.K == 0", then: []interface{}{jm("call", "F.Bump"), "K.K = 1"}, class: "then-forms"})
 	cases = append(cases, c18Case{id: fmt.Sprintf("c18/then-forms/%d", len(cases)), when: "K.K == 0", then: []interface{}{jm("set", "K.S", jm("plus", jo("const", "a;b"), jo("const", "}"))), "K.K = 1"}, class: "then-forms"})
+	// nesting of the SAME operator where it is not associative on the operand kinds: mixed int/string
+	// concatenation (1 + (2 + "x") is "12x", (1 + 2) + "x" is "3x") and float rounding (0.1 + (0.2 + 0.3))
+	catLeaves := []interface{}{1.0, 2.0, jo("const", "x"), "F.S", "F.I", jo("const", 7.0)}
+	for _, a := range catLeaves {
+		for _, b := range catLeaves {
+			for _, c := range catLeaves {
+				addThen("same-op-nesting-concat", jm("set", "K.S", jm("plus", jo("const", ""), jm("plus", a, jm("plus", b, c)))))
+				addThen("same-op-nesting-concat", jm("set", "K.S", jm("plus", jo("const", ""), jm("plus", jm("plus", a, b), c))))
+				addThen("same-op-nesting-concat", jm("set", "K.S", jm("plus", jo("const", ""), jm("plus", a, b, c))))
+			}
+		}
+	}
+	fl := []interface{}{0.1, 0.2, 0.3, jo("const", 0.7), "F.F"}
+	for _, op := range []string{"plus", "mul", "minus", "div"} {
+		for _, a := range fl {
+			for _, b := range fl {
+				for _, c := range fl {
+					addThen("same-op-nesting-float", jm("set", "K.F", jm(op, a, jm(op, b, c))))
+					addThen("same-op-nesting-float", jm("set", "K.F", jm(op, jm(op, a, b), c)))
+					addWhen("same-op-nesting-float", jm("eq", jm(op, a, jm(op, b, c)), jm(op, jm(op, a, b), c)))
+				}
+			}
+		}
+	}
+	for _, op := range []string{"and", "or"} {
+		for _, a := range boolObjLeaves {
+			for _, b := range boolObjLeaves {
+				for _, c := range boolObjLeaves {
+					addWhen("same-op-nesting-logic", jm(op, a, jm(op, b, c)))
+					addWhen("same-op-nesting-logic", jm(op, jm(op, a, b), c))
+				}
+			}
+		}
+	}
 	addWhen("plain-string-operand-in-and", jm("and", "F.B", jm("eq", "F.I", 5.0)))
 	addWhen("plain-bool-operand-in-or", jm("or", false, jm("eq", "F.I", 5.0)))
 
@@ -486,7 +520,7 @@ func C18(rep *ev.Reporter, tier string) {
 		rep.Exhaustive = false
 		rep.Coverage["caps_hit"] = "time budget"
 	}
-	rep.Coverage["rule"] = "every JSON operator tree of depth 1 over all 15 operators and operand forms {plain string, number, bool, obj, const of each kind}; depth 2 with a nested operand on either side (quick: every 3rd depth-1 node as nested operand; thorough: all, both sides nested, depth-3 logic trees); 3-operand forms; unary not stacked 1..4 deep and as operand; set/call trees in `then`; calls with nested arguments; hostile string constants; boundary numeric constants; names/descriptions/saliences; malformed rules. Oracle: the JSON tree is read directly (operands grouped exactly as nested, n-ary left-associated) and evaluated by the reference evaluator; the translated text must be accepted by the real builder, keep name/description/salience, give the same candidate flag and the same facts after firing. Ill-typed trees (per the reference) are not judged. Non-trivial: a well-typed tree whose translated rule was built and compared."
+	rep.Coverage["rule"] = "every JSON operator tree of depth 1 over all 15 operators and operand forms {plain string, number, bool, obj, const of each kind}; depth 2 with a nested operand on either side (quick: every 3rd depth-1 node as nested operand; thorough: all, both sides nested, depth-3 logic trees); 3-operand forms; nesting of the same operator on either side where it is not associative (mixed int/string concatenation, float rounding); unary not stacked 1..4 deep and as operand; set/call trees in `then`; calls with nested arguments; hostile string constants; boundary numeric constants; names/descriptions/saliences; malformed rules. Oracle: the JSON tree is read directly (operands grouped exactly as nested, n-ary left-associated) and evaluated by the reference evaluator; the translated text must be accepted by the real builder, keep name/description/salience, give the same candidate flag and the same facts after firing. Ill-typed trees (per the reference) are not judged. Non-trivial: a well-typed tree whose translated rule was built and compared."
 }
 
 func c18FloatSink(w *ref.World) (float64, bool) { return w.Objs["K"].F, true }
